@@ -1,9 +1,10 @@
 """C09 — names are validated, case-insensitive, and paths are normalised consistently."""
 import os, re
 from . import common as C
+from . import apilib as A
 
 PID = "C09"
-MODULE = "CfbVerif.Props.C09"
+MODULE = "CfbVerif.Props.C10"
 
 
 def signature(msg):
@@ -83,6 +84,17 @@ def run(ctx):
     samples += s
     for k, v in h.items():
         hist[k] = hist.get(k, 0) + v
+    # API level: create / look up under case variants and path spellings / list / remove
+    api_ops = api_h = 0
+    for tag, args in [("names-api", ["--seed", ctx.seed, "--count", 300 if quick else 5000, "--max-ops", 40, "--invalid-names", "--no-meta", "--reopen-pct", 3]),
+                      ("perm5", ["--perms", 5, "--seed", ctx.seed, "--sample", 2 if quick else 20])]:
+        stat, h2, sample = A.campaign(ctx, args, tag, "CfbVerif.Props.C01/C10 (model Dir no longer corresponds to lib.rs/directory.rs)")
+        api_ops += stat.get("ops", 0)
+        api_h += stat.get("histories", 0)
+        for k, v in h2.items():
+            hist["api:" + k] = hist.get("api:" + k, 0) + v
+    total += api_ops
+    ctx.coverage["traces_validated_against_impl"] = api_h
     ctx.coverage.update({
         "evaluations": total,
         "distinct_nontrivial": total,
